@@ -25,16 +25,17 @@ FULL STATEMENT (not proved): for every class and every supported size (DESIGN.md
 everything except `Color666PlanarCode` L ≥ 3 and `Color666ToricCode` L ≥ 2 (6.6.6 colour codes
 have d² > n, so disjoint representatives cannot exist, and the enumeration below `d` is beyond
 the kernel).  `coverage_<Class>` pins how many instances of each table are certified, so a
-silently shrinking coverage breaks the build.  ALL SIZES (unbounded in L) are proved for five
-hand-modelled surface codes: `Properties/C17Toric2DCode.lean` (`Lx, Ly ≥ 2`),
+silently shrinking coverage breaks the build.  ALL SIZES (unbounded in L) are proved for seven
+hand-modelled codes: `Properties/C17Toric2DCode.lean` (`Lx, Ly ≥ 2`),
 `Properties/C17Planar2DCode.lean`, `Properties/C17RotatedPlanar2DCode.lean` (`Lx, Ly ≥ 1`):
-`IsDistance n H (min Lx Ly)`; `Properties/C17Toric3DCode.lean` (`Lx, Ly, Lz ≥ 2`):
-`IsDistance n H (min Lx (min Ly Lz))`; `Properties/C17Planar3DCode.lean` (`Lx, Ly, Lz ≥ 1`):
-`IsDistance n H (min Lx (Ly·Lz))` — and `code.d` equals that value for every lattice size, by
-packing with lattice translates; the same for every DEFORMED code of these classes, through the
-generic `distance_deformation_invariant` below (a per-qubit permutation of {X, Y, Z} changes
-neither the distance nor the reported distance of ANY code).  Missing for the full statement:
-the all-sizes statement for the other 11 classes.
+`IsDistance n H (min Lx Ly)`; `Properties/C17Toric3DCode.lean`, `Properties/C17XCubeCode.lean`
+(`Lx, Ly, Lz ≥ 2`): `IsDistance n H (min Lx (min Ly Lz))`; `Properties/C17Planar3DCode.lean`,
+`Properties/C17RotatedPlanar3DCode.lean` (`Lx, Ly, Lz ≥ 1`): `IsDistance n H (min Lx (Ly·Lz))` —
+and `code.d` equals that value for every lattice size, by packing with lattice translates; the
+same for every DEFORMED code of these classes, through the generic
+`distance_deformation_invariant` below (a per-qubit permutation of {X, Y, Z} changes neither the
+distance nor the reported distance of ANY code).  Missing for the full statement: the all-sizes
+statement for the other 9 classes.
 -/
 import PanqecVerif.Instances.DistAll
 import PanqecVerif.Proofs.Dist
